@@ -87,3 +87,45 @@ def kani_replay(ctx, name, r, kind='hex'):
     with open(p, 'w') as f:
         f.write('\n'.join(text) + '\n')
     return p, has_input
+
+
+def native_audit(label, tier='thorough'):
+    """Native audit of the trusted std / hex-crate contracts (audit/stdaxioms.rs): a small program that restates each
+    axiom of shim/stdstr.rs and shim/hexcrate.rs against the real functions (exhaustive over u8 / char where stated,
+    sampled otherwise). An audit: reported, never counted as proved; a failing audit is undecided (a trusted contract of
+    mine would be wrong), never a verdict about the repository."""
+    import shutil
+    import subprocess
+
+    def run(ctx):
+        d = os.path.join(VERIF, 'build', 'audit_std')
+        os.makedirs(os.path.join(d, 'src'), exist_ok=True)
+        os.makedirs(os.path.join(d, '.cargo'), exist_ok=True)
+        shutil.copy(os.path.join(VERIF, 'audit', 'stdaxioms.rs'), os.path.join(d, 'src', 'main.rs'))
+        with open(os.path.join(d, 'Cargo.toml'), 'w') as f:
+            f.write('[package]\nname = "auditstd"\nversion = "0.0.0"\nedition = "2021"\n\n[dependencies]\nhex = "0.4.3"\n\n[workspace]\n')
+        with open(os.path.join(d, '.cargo', 'config.toml'), 'w') as f:
+            f.write('[net]\noffline = true\n')
+        lock = os.path.join(ctx.repo, 'Cargo.lock')
+        if not os.path.exists(lock):
+            lock = '/repo/Cargo.lock'
+        if not os.path.exists(os.path.join(d, 'Cargo.lock')):
+            shutil.copy(lock, os.path.join(d, 'Cargo.lock'))
+        env = dict(os.environ, CARGO_NET_OFFLINE='true')
+        try:
+            p = subprocess.run(['cargo', 'run', '--release', '--offline', '-q'], cwd=d, env=env, capture_output=True, text=True, timeout=900)
+        except Exception as e:
+            ctx.undecided.append('native audit %s: %r' % (label, e))
+            return dict(obligations=0, discharged=0, kind='native-audit', complete=False)
+        rows = [ln for ln in p.stdout.split('\n') if ln.startswith('audit ')]
+        ok = [r for r in rows if ' ok ' in r]
+        if p.returncode != 0 or len(ok) != len(rows) or not rows:
+            ctx.undecided.append('native audit of the trusted std contracts failed: %s' % ('; '.join(r for r in rows if r not in ok) or p.stderr[-400:]))
+        cmd = 'cargo run --release --offline   (crate build/audit_std = audit/stdaxioms.rs + hex 0.4.3)'
+        if cmd not in ctx.checker_cmds:
+            ctx.checker_cmds.append(cmd)
+        return dict(obligations=len(rows), discharged=len(ok), kind='native-audit', complete=False,
+                    bound='exhaustive over all u8 (x 520 prefixes) and all char; sampled texts and 70194 usize values otherwise',
+                    back_end='rustc (native run against std and hex 0.4.3); an audit of trusted contracts, not a proof', rows=rows)
+
+    return dict(name=label, run=run, tier=tier, counts_as_proof=False)
